@@ -341,6 +341,22 @@ func main() {
 			}
 		})
 
+		// value histories: every ordered pair of boundary patterns of one field as two consecutive replies
+		add("consecutive-replies", func(c *client, emit func([]byte)) {
+			for _, f := range op.Reply {
+				ps := patterns(f)
+				for _, p1 := range ps {
+					for _, p2 := range ps {
+						b1, b2 := mk(), mk()
+						copy(b1[f.Off:], p1)
+						copy(b2[f.Off:], p2)
+						emit(b1)
+						emit(b2)
+					}
+				}
+			}
+		})
+
 		// sentinel interplay with the request arguments (echo rules)
 		switch op.Name {
 		case "GetCardByID", "GetCardByIndex":
@@ -444,7 +460,7 @@ func main() {
 	}
 	r.Set("cases_per_operation", fam)
 	r.Distinct(distinct.Load())
-	r.Rule("per reply-bearing operation: baseline reply; each 1-byte field x all 256 values; each HH:mm field x all 65536 byte pairs; each BCD date x (all 65536 MMDD pairs x 5 (thorough 9) year patterns + all 65536 year pairs x 6 MMDD patterns); each adjacent byte pair of every date-time x all 65536 values x 3 (thorough 8) bases and of every system date / system time x 5 bases; binary multi-byte fields byte-wise + 32-bit alphabet; all pairs of fields over boundary patterns; echo-rule sentinels over (asked, echoed) pairs of the 32-bit alphabet; date histories: every ordered pair of days <= 40 days apart in 2023-12-01..2025-02-28 as From/To of one card reply and as the dates of two consecutive replies (GetDevice, GetStatus). distinct = replies generated (each differs from the baseline in the swept bytes; sweeps pass through the baseline value once per family)")
+	r.Rule("per reply-bearing operation: baseline reply; each 1-byte field x all 256 values; each HH:mm field x all 65536 byte pairs; each BCD date x (all 65536 MMDD pairs x 5 (thorough 9) year patterns + all 65536 year pairs x 6 MMDD patterns); each adjacent byte pair of every date-time x all 65536 values x 3 (thorough 8) bases and of every system date / system time x 5 bases; binary multi-byte fields byte-wise + 32-bit alphabet; all pairs of fields over boundary patterns; every ordered pair of boundary patterns of one field as two consecutive replies; echo-rule sentinels over (asked, echoed) pairs of the 32-bit alphabet; date histories: every ordered pair of days <= 40 days apart in 2023-12-01..2025-02-28 as From/To of one card reply and as the dates of two consecutive replies (GetDevice, GetStatus). distinct = replies generated (each differs from the baseline in the swept bytes; sweeps pass through the baseline value once per family)")
 	r.Assume("reference decoder spec.ExpectReply / spec.GetField and tables spec/protocol.go (hand-written)")
 	r.Assume("replies reach the API through the broadcast path of an unconfigured client (the directed paths share the decoding code; their filters are C03)")
 	r.Assume("process time zone pinned to UTC (zone dependence is C05/C13)")
